@@ -22,6 +22,10 @@ VARIABLES st,       \* the projection after the last accepted line
 tvars == <<st, base, journal, ver, revs, zero, l>>
 
 AllTypes == {"bal", "sto", "code", "sui", "ev", "ax", "asup", "afr", "aid", "eq", "cand", "pst", "votes", "vf", "sig"}
+\* the code may have been repaired for some of the listed deviations: any subset of them may be in effect
+UndoDevs == {"Dev_UndoCodeDropsPreviousCode", "Dev_UndoSuicideShallow", "Dev_UndoEventNoop"}
+RedoDevs == {"Dev_MergeAcrossSuicide", "Dev_WorthlessSuicideDropped"}
+Smallest(Ds) == CHOOSE D \in Ds : \A D2 \in Ds : Cardinality(D) <= Cardinality(D2)
 EvPanic(n) == l <= Len(Trace) /\ Trace[l].ev = n /\ "panic" \in DOMAIN Trace[l] /\ l' = l + 1
 
 TReset == /\ Ev("reset")
@@ -52,9 +56,10 @@ TRevert == /\ Ev("Revert")
               /\ E.id = revs[i].id
               /\ E.nlogs = revs[i].idx
               /\ \/ E.obs = revs[i].copy                                        \* what the property demands
-                 \/ /\ E.obs # revs[i].copy /\ AllowedDev # {}                 \* a listed deviation, exactly as predicted
-                    /\ E.obs = UndoFrom(st, journal, revs[i].idx, base, zero, AllowedDev)
-                    /\ \A d \in {x \in AllowedDev : UndoFrom(st, journal, revs[i].idx, base, zero, AllowedDev \ {x}) # E.obs} : UseDev(d)
+                 \/ /\ E.obs # revs[i].copy                                   \* listed deviations, exactly as predicted
+                    /\ LET Ds == {D \in SUBSET (AllowedDev \cap UndoDevs) : E.obs = UndoFrom(st, journal, revs[i].idx, base, zero, D)} IN
+                       /\ Ds # {}
+                       /\ \A d \in Smallest(Ds) : UseDev(d)
               /\ journal' = SubSeq(journal, 1, revs[i].idx)
               /\ revs' = SubSeq(revs, 1, i - 1)
            /\ st' = E.obs
@@ -70,7 +75,23 @@ TRevertPanic == /\ EvPanic("Revert")
                    /\ "Dev_UndoFirstEquityPanics" \in AllowedDev /\ HasNilEquity(journal, revs[i].idx) => UseDev("Dev_UndoFirstEquityPanics")
                 /\ UNCHANGED <<st, base, journal, ver, revs, zero>>
 
-TraceNext == TReset \/ TSet \/ TSnapshot \/ TRevert \/ TRevertPanic
+\* the block is sealed (MergeChangeLogs, Finalise) and its published logs are replayed on the parent state
+\* (RebuildAll, Finalise).  Finalise changes no getter except the four roots; the replayed projection - roots included -
+\* must be the projection of the executed block.
+Roots == {"rs", "rac", "rai", "req"}
+NoRoots(o) == [a \in DOMAIN o |-> [f \in DOMAIN o[a] \ Roots |-> o[a][f]]]
+TSeal == /\ Ev("Seal")
+         /\ E.err = "" /\ E.rerr = ""
+         /\ NoRoots(E.obs) = NoRoots(st)
+         /\ \/ E.redo = E.obs                                                        \* what the property demands
+            \/ /\ E.redo # E.obs                                                     \* listed deviations, exactly as predicted
+               /\ LET Ds == {D \in SUBSET (AllowedDev \cap RedoDevs) : NoRoots(E.redo) = NoRoots(Redone(base, journal, zero, D))} IN
+                  /\ Ds # {}
+                  /\ \A d \in Smallest(Ds) : UseDev(d)
+         /\ st' = E.obs
+         /\ UNCHANGED <<base, journal, ver, revs, zero>>
+
+TraceNext == TReset \/ TSet \/ TSnapshot \/ TRevert \/ TRevertPanic \/ TSeal
 TraceSpec == l = 1 /\ st = <<>> /\ base = <<>> /\ journal = <<>> /\ ver = <<>> /\ revs = <<>> /\ zero = "" /\ [][TraceNext]_tvars
 \* state invariants evaluated on every prefix of every real trace
 TraceRevsOK == \A i \in 1..Len(revs) : revs[i].idx <= Len(journal) /\ \A j \in 1..Len(revs) : i < j => revs[i].idx <= revs[j].idx
